@@ -1,11 +1,13 @@
 package webauthn
 
 import (
+	"crypto"
 	"crypto/ecdsa"
 	"crypto/rsa"
 	"crypto/x509"
 	"fmt"
 
+	"github.com/pomerium/webauthn/cose"
 	"github.com/pomerium/webauthn/tpm"
 )
 
@@ -31,8 +33,16 @@ func VerifyTPMAttestationStatement(
 
 	// Verify that the public key specified by the parameters and unique fields of pubArea is identical to the
 	// credentialPublicKey in the attestedCredentialData in authenticatorData.
+	authenticatorData, err := attestationObject.unmarshalAttestedAuthenticatorData()
+	if err != nil {
+		return nil, fmt.Errorf("%w: %s", ErrInvalidAttestationStatement, err)
+	}
+	credentialPublicKey, _, err := cose.UnmarshalPublicKey(authenticatorData.AttestedCredentialData.CredentialPublicKey)
+	if err != nil {
+		return nil, fmt.Errorf("%w: %s", ErrInvalidAttestationStatement, err)
+	}
 	err = verifyTPMAttestationStatementPubAreaMatches(
-		aikCerts,
+		credentialPublicKey.CryptoPublicKey(),
 		tpmPubArea,
 	)
 	if err != nil {
@@ -165,52 +175,34 @@ func verifyTPMAttestationStatementCertInfo(
 }
 
 func verifyTPMAttestationStatementPubAreaMatches(
-	certificates []*x509.Certificate,
+	credentialPublicKey crypto.PublicKey,
 	tpmPubArea *tpm.Public,
 ) error {
-	checkCertificate := func(certificate *x509.Certificate) error {
-		certificateKey := certificate.PublicKey
-		tpmPubAreaKey, err := tpmPubArea.Key()
-		if err != nil {
-			return fmt.Errorf("%w: error getting tpm pub area key: %s", ErrInvalidAttestationStatement, err)
-		}
-
-		switch certificateKey := certificateKey.(type) {
-		case *rsa.PublicKey:
-			tpmPubAreaKey, ok := tpmPubAreaKey.(*rsa.PublicKey)
-			if !ok {
-				return fmt.Errorf("%w: invalid public keys", ErrInvalidAttestationStatement)
-			}
-
-			if certificateKey.E != tpmPubAreaKey.E {
-				return fmt.Errorf("%w: mismatched public keys", ErrInvalidAttestationStatement)
-			}
-		case *ecdsa.PublicKey:
-			tpmPubAreaKey, ok := tpmPubAreaKey.(*ecdsa.PublicKey)
-			if !ok {
-				return fmt.Errorf("%w: invalid public keys", ErrInvalidAttestationStatement)
-			}
-
-			if certificateKey.Curve != tpmPubAreaKey.Curve ||
-				certificateKey.X.Cmp(tpmPubAreaKey.X) != 0 ||
-				certificateKey.Y.Cmp(tpmPubAreaKey.Y) != 0 {
-				return fmt.Errorf("%w: mismatched public keys", ErrInvalidAttestationStatement)
-			}
-
-		default:
-			return fmt.Errorf("%w: unsupported key format", ErrInvalidAttestationStatement)
-		}
-
-		return nil
+	tpmPubAreaKey, err := tpmPubArea.Key()
+	if err != nil {
+		return fmt.Errorf("%w: error getting tpm pub area key: %s", ErrInvalidAttestationStatement, err)
 	}
 
-	err := ErrInvalidCertificate
-	for _, certificate := range certificates {
-		err = checkCertificate(certificate)
-		if err == nil {
-			return nil
+	switch tpmPubAreaKey := tpmPubAreaKey.(type) {
+	case *rsa.PublicKey:
+		credentialKey, ok := credentialPublicKey.(rsa.PublicKey)
+		if !ok {
+			return fmt.Errorf("%w: invalid public keys", ErrInvalidAttestationStatement)
 		}
+		if !tpmPubAreaKey.Equal(&credentialKey) {
+			return fmt.Errorf("%w: mismatched public keys", ErrInvalidAttestationStatement)
+		}
+	case *ecdsa.PublicKey:
+		credentialKey, ok := credentialPublicKey.(*ecdsa.PublicKey)
+		if !ok {
+			return fmt.Errorf("%w: invalid public keys", ErrInvalidAttestationStatement)
+		}
+		if !tpmPubAreaKey.Equal(credentialKey) {
+			return fmt.Errorf("%w: mismatched public keys", ErrInvalidAttestationStatement)
+		}
+	default:
+		return fmt.Errorf("%w: unsupported key format", ErrInvalidAttestationStatement)
 	}
 
-	return err
+	return nil
 }
